@@ -24,7 +24,47 @@ def _text(f):
     return c.get("text", "") if isinstance(c, dict) else ""
 
 
+E2_RULES = [
+    # (finding suffix, predicate(sig, detail))
+    ("resolution-error-let-with", lambda s, d: "ResolutionError" in d),
+    ("value-with-trailing-comment", lambda s, d: "# c" in s),
+    ("quoted-vs-bare-name", lambda s, d: "'\"a\"'" in s),
+    ("scope-layer-on-call-argument", lambda s, d: re.search(r"(^|/)call/[a-z0-9]+:|c09/(call|lamcall)/", s.split("|")[1] + ":") is not None and "@" in s.split("|", 2)[2]),
+    ("let-not-adjacent-to-target", lambda s, d: re.search(r"let[12]/(lamf|lam|with|assert|paren|call)/|c09/\w+/\d/\w+/outer", s) is not None and "@" in s.split("|", 2)[2]),
+    ("scope-selector-falls-back-to-body", lambda s, d: re.search(r"set '(\w+)' .* ; (set|rm) '@\1'", s) is not None),
+    ("mixed-explicit-and-attrpath", lambda s, d: "/mixed:" in s or "|mixed:" in s),
+    ("inherited-name", lambda s, d: "set 'q'" in s),
+    ("with-wrapper-scope-layout", lambda s, d: re.search(r"(^|[|/])with/", s) is not None),
+    ("attrpath-order-cache-stale", lambda s, d: s.split("|")[1] in ("attrpath", "attrpath2", "deep", "scoped-attrpath", "lambda-attrpath")),
+]
+E2_META = {
+    "resolution-error-let-with": ("edits on `let … in with p; { … }` (free `with` environment under a let) die with ResolutionError", "cli/manipulations.py:_resolve_target_set_from_expr resolves the `with` environment eagerly (scopes_for_owner) and the unbound name escapes as ResolutionError, which is neither KeyError nor ValueError"),
+    "value-with-trailing-comment": ("a VALUE ending in a line comment is spliced so that the comment swallows the following tokens on inline layouts", "Binding.rebuild emits `name = value; # c` followed by the rest of an inline set on the same line"),
+    "quoted-vs-bare-name": ("a quoted path segment never matches a bare name in the file (and vice versa): second definition / KeyError", "cli/manipulations.py:_find_binding compares the *rendered* name, so `\"a\"` and `a` are different keys (same root cause as the C12 finding)"),
+    "scope-layer-on-call-argument": ("`@` edits on a call-argument target emit `f let … in { … }`, which is not valid Nix", "rebuild_scoped wraps the argument set in a let without parentheses (expressions/expression.py:rebuild_scoped via FunctionCall.rebuild)"),
+    "let-not-adjacent-to-target": ("a `let` separated from the attribute set by a wrapper (lambda/with/assert/parentheses/call) is not seen as a scope layer", "cli/manipulations.py:_collect_scope_layers only looks at layers lifted onto the target set itself"),
+    "scope-selector-falls-back-to-body": ("`set @name` with no let layer edits the body binding `name` when it exists instead of creating a layer", "cli/manipulations.py:set_value shortcut `_path_exists_in_attrset`"),
+    "mixed-explicit-and-attrpath": ("documents defining a name both explicitly and through attrpaths: edits create duplicates / cannot find members", "set.py:_merge_attrpath_bindings keeps both bindings; path walk only follows one of them"),
+    "inherited-name": ("`set` on a name that is only inherited adds a second definition", "cli/manipulations.py:_find_binding ignores Inherit entries"),
+    "with-wrapper-scope-layout": ("creating/pruning a let layer under `with p;` rewrites the line break after `with p;` and drops the final newline", "WithStatement.rebuild chooses inline vs multi-line from a preview; remove_value strips the trailing newline when the last layer is pruned"),
+    "attrpath-order-cache-stale": ("mapping operations on attrpath-derived bindings leave the rebuilt text unchanged", "AttributeSet.__setitem__/__delitem__ (and Scope) update `values` but not the `attrpath_order` render cache"),
+}
+
+
+def _e2_assign(f):
+    s, d = f["sig"], f.get("detail", "")
+    for name, pred in E2_RULES:
+        try:
+            if pred(s, d):
+                return f"{f['prop']}-{name}"
+        except Exception:
+            continue
+    return None
+
+
 def assign(f):
+    if isinstance(f.get("case"), dict) and f["case"].get("kind") in ("e2", "c19", "c14"):
+        return _e2_assign(f)
     text = _text(f)
     if isinstance(f.get("case"), dict) and f["case"].get("kind") == "e1" and text[:1] in (" ", "\t", "\n"):
         return f"{f['prop']}-leading-whitespace"
@@ -42,6 +82,9 @@ def meta_for(fid, f):
         return dict(LEADING_WS)
     if fid in META:
         return dict(META[fid])
+    suffix = fid.split("-", 1)[1] if "-" in fid else fid
+    if suffix in E2_META:
+        return {"summary": E2_META[suffix][0], "root_cause": E2_META[suffix][1], "why_not_fixed": "recorded, not repaired in this session (behavioural change wider than a minimal patch); see DESIGN.md section 3"}
     return {
         "summary": f"{f['cls']} - deviating gap(s) in: {f['group'].split('@', 1)[-1]}",
         "root_cause": "see DESIGN.md section 3 (grouped by discrepancy class and the construct whose gap deviates)",
